@@ -1,4 +1,5 @@
 import SigModel.Model.Gorilla
+import SigModel.Spec.Metrics
 import Oracle.Util
 /- line protocol, suite "gorilla":
    gor <header> <cloneAt> <t>:<vhex16> ...   →  bytes=<hex> dec=<t:v,...>/<st> clone=<t:v,...>/<st>
@@ -42,10 +43,57 @@ def gdec (args : List String) : String :=
     | none => "bad-op"
   | _ => "bad-op"
 
+/-! suite "tsidpre":  tsid <series> <series>   series = <hexname>{<hexkey>=<hexvalue>,…} (distinct keys)
+    →  pre1=<hex> pre2=<hex> same=<0|1>     (the bytes GetTSID hashes: Spec/Metrics.lean `preimageB`, tags in
+    descending bytewise key order as `TagsHolder.finish` sorts them) -/
+
+/-- lexicographic ≤ on byte strings (Go's string comparison) -/
+def bytesLe : List Nat → List Nat → Bool
+  | [], _ => true
+  | _ :: _, [] => false
+  | a :: r, b :: s => a < b || (a == b && bytesLe r s)
+
+def sortTagsDesc (tags : List (List Nat × List Nat)) : List (List Nat × List Nat) :=
+  SigModel.Spec.Metrics.sortBy (fun a b => bytesLe b.1 a.1) tags
+
+def hasDupKey : List (List Nat × List Nat) → Bool
+  | [] => false
+  | kv :: r => r.any (fun x => x.1 == kv.1) || hasDupKey r
+
+def parseTsidSeries (tok : String) : Option (List Nat × List (List Nat × List Nat)) :=
+  match tok.splitOn "{" with
+  | [n, rest] =>
+    if !rest.endsWith "}" then none else
+    let ls := (rest.dropEnd 1).toString
+    let tags? : Option (List (List Nat × List Nat)) :=
+      if ls.isEmpty then some [] else
+      (ls.splitOn ",").mapM (fun kv => match kv.splitOn "=" with
+        | [k, v] => match hexBytes? k, hexBytes? v with
+          | some k, some v => some (k, v)
+          | _, _ => none
+        | _ => none)
+    match hexBytes? n, tags? with
+    | some n, some tags => if hasDupKey tags then none else some (n, tags)
+    | _, _ => none
+  | _ => none
+
+def tsid (args : List String) : String :=
+  match args with
+  | [a, b] =>
+    match parseTsidSeries a, parseTsidSeries b with
+    | some (n1, t1), some (n2, t2) =>
+      let s1 := sortTagsDesc t1
+      let s2 := sortTagsDesc t2
+      let same := n1 == n2 && s1 == s2
+      s!"pre1={bytesHex (SigModel.Spec.Metrics.preimageB n1 s1)} pre2={bytesHex (SigModel.Spec.Metrics.preimageB n2 s2)} same={if same then "1" else "0"}"
+    | _, _ => "bad-op"
+  | _ => "bad-op"
+
 def handle (cmd : String) (args : List String) : Option String :=
   match cmd with
   | "gor" => some (gor args)
   | "gdec" => some (gdec args)
+  | "tsid" => some (tsid args)
   | _ => none
 
 end Oracle.C08
